@@ -10,7 +10,9 @@
 (* made one second later is presented.  Site in the library:                *)
 (* new::edns::Cookie::verify(addr, secret, validity: Range<Serial>), and    *)
 (* Range<Serial>::contains / Range<Timestamp>::contains as such.            *)
-EXTENDS Serial, Sequences, FiniteSets, TLC, Json
+EXTENDS SerialSites, Sequences, FiniteSets, TLC, Json
+
+CONSTANT Sites        \* the site table (SerialSites!SiteTable)
 
 VARIABLES lo, hi, x
 wvars == <<lo, hi, x>>
@@ -69,5 +71,5 @@ EmitWindow == PrintT("CASE " \o ToJson(
    [in  |-> [kind |-> "window", k |-> BITS, lo |-> lo, hi |-> hi, x |-> x,
              straddle |-> (WellFormed(lo, hi) /\ lo > hi)],
     exp |-> LET d == WindowDecision(lo, hi, x) IN
-            [cookie |-> d, newrange |-> d, range |-> d, tsrange |-> d]]))
+            [s \in SitesOf(Sites, "window") |-> d]]))
 =============================================================================
